@@ -371,7 +371,69 @@ def lossy_fancy_accumulation(tree):
     return found
 
 
-DETECTORS = {"P1": "one-shot-iterator", "P2": "truthy-bound", "P3": "truncating-dtype", "P4": "identity-on-value", "P5": "lossy-fancy-accumulation"}
+def raw_array_fields(trees):
+    """names of instance fields that a constructor of the package fills with `np.asarray(param)` / `np.array(param)`
+    without asking for a dtype: the user's array is kept in whatever dtype it came (bool, uint8, int64, float64, ...)"""
+    fields = set()
+    for tree in trees:
+        for cls in [n for n in ast.walk(tree) if isinstance(n, ast.ClassDef)]:
+            for init in [m for m in cls.body if isinstance(m, ast.FunctionDef) and m.name == "__init__"]:
+                params = {a.arg for a in init.args.args}
+                raw = set()
+                for st in ast.walk(init):
+                    if isinstance(st, ast.Assign) and len(st.targets) == 1 and isinstance(st.value, ast.Call) and (dotted(st.value.func) or "") in ("np.asarray", "np.array", "numpy.asarray", "numpy.array") \
+                            and st.value.args and isinstance(st.value.args[0], ast.Name) and st.value.args[0].id in params and not any(k.arg == "dtype" for k in st.value.keywords) and len(st.value.args) == 1:
+                        t = st.targets[0]
+                        if isinstance(t, ast.Name):
+                            raw.add(t.id)
+                        elif isinstance(t, ast.Attribute) and isinstance(t.value, ast.Name) and t.value.id == "self":
+                            fields.add(t.attr)
+                for st in ast.walk(init):
+                    if isinstance(st, ast.Assign) and len(st.targets) == 1 and isinstance(st.targets[0], ast.Attribute) and isinstance(st.targets[0].value, ast.Name) and st.targets[0].value.id == "self" \
+                            and isinstance(st.value, ast.Name) and st.value.id in raw:
+                        fields.add(st.targets[0].attr)
+    return fields
+
+
+def own_dtype_arithmetic(tree, fields):
+    """P6: `Q + Q.T` / `A - A.T` on an array the package stores in the caller's dtype: for a boolean matrix `+` is a logical
+    OR, for a small unsigned dtype the sum wraps around -- the derivative coefficients built from it are not the numbers
+    the evaluation uses (which multiplies the same array by floating values)."""
+    found = []
+    if not fields:
+        return found
+    for fn in [n for n in ast.walk(tree) if isinstance(n, (ast.FunctionDef, ast.AsyncFunctionDef))]:
+        local = {}
+        floated = set()
+        for st in _own(fn):
+            if isinstance(st, ast.Assign) and len(st.targets) == 1 and isinstance(st.targets[0], ast.Name):
+                v = st.value
+                if isinstance(v, ast.Attribute) and v.attr in fields:
+                    local[st.targets[0].id] = v.attr
+                if isinstance(v, ast.Call) and (any(k.arg == "dtype" for k in v.keywords) or (isinstance(v.func, ast.Attribute) and v.func.attr == "astype")):
+                    floated.add(st.targets[0].id)
+
+        def field_of(e):
+            while isinstance(e, ast.Attribute) and e.attr == "T":
+                e = e.value
+            if isinstance(e, ast.Call) and isinstance(e.func, ast.Attribute) and e.func.attr == "transpose":
+                return field_of(e.func.value)
+            if isinstance(e, ast.Attribute) and e.attr in fields:
+                return e.attr
+            if isinstance(e, ast.Name) and e.id in local and e.id not in floated:
+                return local[e.id]
+            return None
+
+        for n in _own(fn):
+            if isinstance(n, ast.BinOp) and isinstance(n.op, (ast.Add, ast.Sub)):
+                a, b = field_of(n.left), field_of(n.right)
+                if a and b and a == b:
+                    found.append((n.lineno, "P6", fn.name, f"`{src(n)[:50]}` is computed in the dtype the caller's `{a}` array came in (the constructor keeps it as np.asarray gives it): for a boolean matrix `+` is a logical OR and for uint8 the sum wraps, "
+                                  f"so the coefficients derived from it differ from the ones the evaluation multiplies with", src(n)[:40]))
+    return found
+
+
+DETECTORS = {"P6": "own-dtype-arithmetic", "P1": "one-shot-iterator", "P2": "truthy-bound", "P3": "truncating-dtype", "P4": "identity-on-value", "P5": "lossy-fancy-accumulation"}
 
 _POSITIVE = {
     "P1": "def gen(xs):\n    for x in xs:\n        yield x\n\ndef build(xs):\n    fns = gen(xs)\n    return lambda x, fns=fns: sum(f(x) for f in fns)\n\ndef rows(elems, qs):\n    it = enumerate(elems)\n    for q in qs:\n        for j, e in it:\n            pass\n",
@@ -424,6 +486,7 @@ def report(prog, rep, rule, rels, kinds=("P1", "P2", "P3"), skip_functions=()):
     selfcheck()
     kinds = tuple(kinds) + (("P4",) if "P4" not in kinds else ()) + (("P5",) if "P5" not in kinds else ())
     gens = _generator_functions([m.tree for m in prog.modules.values()])
+    raw_fields = raw_array_fields([m.tree for m in prog.modules.values()])
     n_fn = 0
     total = 0
     for m in prog.modules.values():
@@ -431,9 +494,10 @@ def report(prog, rep, rule, rels, kinds=("P1", "P2", "P3"), skip_functions=()):
             continue
         n_fn += sum(1 for n in ast.walk(m.tree) if isinstance(n, (ast.FunctionDef, ast.AsyncFunctionDef)))
         extra = generators_passed_to_reiterating_functions(prog, [m.rel], gens) if "P1" in kinds else []
+        extra += own_dtype_arithmetic(m.tree, raw_fields)
         for lineno, kind, fname, msg, key in _run(m.tree, gens, kinds) + extra:
             if fname in skip_functions:
                 continue
             total += 1
             rep.ob(rule, f"{fname}", False, msg, loc=f"{m.rel}:{lineno}", detail=f"{DETECTORS[kind]}:{key}", robust=True)
-    rep.ob(rule, "value-carrying code", True, f"{n_fn} functions of {sorted(rels)} scanned for {', '.join(DETECTORS[k] for k in kinds)}: {total} finding(s)", detail="pitfall-inventory", trivial=True, loc=None)
+    rep.ob(rule, "value-carrying code", True, f"{n_fn} functions of {sorted(rels)} scanned for {', '.join(DETECTORS[k] for k in kinds)}, own-dtype-arithmetic: {total} finding(s)", detail="pitfall-inventory", trivial=True, loc=None)
